@@ -39,6 +39,10 @@ type VarsCase struct {
 	Split int `json:"split,omitempty"`
 	// NamedOut: a variable that the task show also declares as its (named) output
 	NamedOut string `json:"named_out,omitempty"`
+	// Gate: the probing task depends on a task gate("gate.txt") that has already run successfully, so
+	// it is reported skipped in front of it: what an earlier task of the run did or did not do must not
+	// change what reaches the commands of a later one
+	Gate bool `json:"gate,omitempty"`
 }
 
 var varNames = []string{"AMB_A", "HOME", "LANG", "DOT_B", "BOTH_C", "PLAIN_D", "other", "Mixed_e"}
@@ -110,6 +114,7 @@ func genVarsBody(t *rapid.T) VarsCase {
 	if n > 0 && rapid.Bool().Draw(t, "interleave") {
 		c.Split = rapid.IntRange(1, n).Draw(t, "split")
 	}
+	c.Gate = rapid.IntRange(0, 2).Draw(t, "gate") == 0
 	return c
 }
 
@@ -157,10 +162,15 @@ func (c VarsCase) source() (src string, cmds map[string][2]string) {
 		probes(c.Vars[:c.Split])
 		b.WriteString("    echo early\n}\n")
 	}
+	showDeps := ""
+	if c.Gate {
+		b.WriteString("\ntask gate(\"gate.txt\") {\n    echo gate\n}\n")
+		showDeps = "gate"
+	}
 	if c.NamedOut != "" {
-		fmt.Fprintf(&b, "\ntask show() -> %s {\n", c.NamedOut)
+		fmt.Fprintf(&b, "\ntask show(%s) -> %s {\n", showDeps, c.NamedOut)
 	} else {
-		b.WriteString("\ntask show() {\n")
+		fmt.Fprintf(&b, "\ntask show(%s) {\n", showDeps)
 	}
 	probes(c.Vars)
 	if len(c.Vars) >= 2 {
@@ -175,7 +185,7 @@ func execVars(s *ev.Shard, b *sandbox.Box, c VarsCase) *rp.Fail {
 		return &rp.Fail{Sig: "harness", Msg: err.Error()}
 	}
 	src, _ := c.source()
-	files := map[string]string{"spokfile": src, "nested/dir/": "", "real/sub/": "", "out/dir/": ""}
+	files := map[string]string{"spokfile": src, "nested/dir/": "", "real/sub/": "", "out/dir/": "", "gate.txt": "gate"}
 	if len(c.DotEnv) > 0 {
 		var keys []string
 		for k := range c.DotEnv {
@@ -224,6 +234,11 @@ func execVars(s *ev.Shard, b *sandbox.Box, c VarsCase) *rp.Fail {
 	if c.Split > 0 {
 		request = []string{"early", "show"}
 	}
+	if c.Gate && !anyFail {
+		if r0 := b.Run(cwd, env, runTimeout, "gate"); r0.Exit != 0 {
+			return &rp.Fail{Sig: "valid-program-rejected", Size: size, Msg: fmt.Sprintf("%s: `spok gate` failed with status %d: %s", desc, r0.Exit, sandbox.Strip(r0.Stderr))}
+		}
+	}
 	res := b.Run(cwd, env, runTimeout, append([]string{"--json"}, request...)...)
 	if res.TimedOut {
 		return &rp.Fail{Sig: "harness", Msg: "spok timed out: " + res.Stderr}
@@ -247,7 +262,11 @@ func execVars(s *ev.Shard, b *sandbox.Box, c VarsCase) *rp.Fail {
 		return &rp.Fail{Sig: "valid-program-rejected", Size: size, Msg: fmt.Sprintf("%s: `spok --json show` failed with status %d: %s", desc, res.Exit, sandbox.Strip(res.Stderr))}
 	}
 	results, ok := parseJSON(res.Stdout)
-	if !ok || len(results) != len(request) {
+	wantTasks := len(request)
+	if c.Gate {
+		wantTasks++ // the gate task is part of the run (reported skipped)
+	}
+	if !ok || len(results) != wantTasks {
 		return &rp.Fail{Sig: "json-unreadable", Size: size, Msg: fmt.Sprintf("%s: stdout is not one JSON document with %d task(s): %q", desc, len(request), res.Stdout)}
 	}
 	var showRes, earlyRes *taskResult
